@@ -49,7 +49,7 @@ type RaftGroup struct {
 	log           *log.Entry
 }
 
-func startRaftNode(id uint64, nodeIds []uint64, storage wal.WAL, logger *log.Entry) (etcdRaft.Node, error) {
+func startRaftNode(id uint64, address string, nodeIds []uint64, storage wal.WAL, logger *log.Entry) (etcdRaft.Node, error) {
 	raftConfig := &etcdRaft.Config{
 		ID:              id,
 		ElectionTick:    10,
@@ -70,7 +70,12 @@ func startRaftNode(id uint64, nodeIds []uint64, storage wal.WAL, logger *log.Ent
 		if fresh {
 			var peers []etcdRaft.Peer
 			for _, nodeId := range nodeIds {
-				peers = append(peers, etcdRaft.Peer{ID: nodeId})
+				peer := etcdRaft.Peer{ID: nodeId}
+				if nodeId == id {
+					// The bootstrap entry is the only durable record of this node's address
+					peer.Context = []byte(address)
+				}
+				peers = append(peers, peer)
 			}
 			return etcdRaft.StartNode(raftConfig, peers), nil
 		}
@@ -102,7 +107,7 @@ func NewRaftGroup(id uuid.UUID, nodeIds []uint64, storage wal.WAL, transport *Ra
 	})
 
 	ctx, ctxCancel := context.WithCancel(context.Background())
-	raftNode, err := startRaftNode(transport.NodeId(), nodeIds, storage, logger)
+	raftNode, err := startRaftNode(transport.NodeId(), transport.address, nodeIds, storage, logger)
 	if err != nil {
 		return nil, err
 	}
